@@ -151,9 +151,16 @@ pub fn run(ctx: &Ctx) -> i32 {
                 }
                 n += 1;
                 counts.inc("compiler-product");
-                if let Err(e) = c.validate() {
-                    ctx.violation(&format!("compiler output for {origin} fails validate(): {e:?}"), json!({"kind": "program", "program": src}));
-                    continue;
+                match crate::util::catch(|| c.validate()) {
+                    Ok(Ok(())) => {}
+                    Ok(Err(e)) => {
+                        ctx.violation(&format!("compiler output for {origin} fails validate(): {e:?}"), json!({"kind": "program", "program": src}));
+                        continue;
+                    }
+                    Err(p) => {
+                        ctx.violation(&format!("validate() panicked on the compiler output for {origin}: {p}"), json!({"kind": "program", "program": src}));
+                        continue;
+                    }
                 }
                 let r = match crate::util::catch(|| rc::Circuit::from(c)) {
                     Ok(r) => r,
@@ -162,9 +169,16 @@ pub fn run(ctx: &Ctx) -> i32 {
                         continue;
                     }
                 };
-                if let Err(e) = r.validate() {
-                    ctx.violation(&format!("converter output for {origin} fails validate(): {e:?}"), json!({"kind": "program", "program": src}));
-                    continue;
+                match crate::util::catch(|| r.validate()) {
+                    Ok(Ok(())) => {}
+                    Ok(Err(e)) => {
+                        ctx.violation(&format!("converter output for {origin} fails validate(): {e:?}"), json!({"kind": "program", "program": src}));
+                        continue;
+                    }
+                    Err(p) => {
+                        ctx.violation(&format!("validate() panicked on the converter output for {origin}: {p}"), json!({"kind": "program", "program": src}));
+                        continue;
+                    }
                 }
                 if c.gates.len() < 3000 {
                     valid_ssa.push(c.clone());
